@@ -120,11 +120,11 @@ var c03Spec = fw.Spec[c03Case]{
 	ID:         "C03",
 	Level:      "model_checking",
 	StateGraph: true,
-	Rule: "stateless model checking: for every scenario (router shape x set of 2-3 in-flight requests) every interleaving of the requests at the scheduling points (lock/unlock, pool get/put, list steps, every visible statement of rux, handler boundaries) up to a preemption bound iterated 0,1,2(,3) is executed on the real ServeHTTP under a controlled scheduler; each thread's observation must equal its solo observation, no panic/deadlock, cache invariants hold afterwards, the vector-clock monitor reports no race on cache/pool; " +
+	Rule: "stateless model checking: for every scenario (router shape x set of 2-3 in-flight requests) every interleaving of the requests at the scheduling points (lock/unlock, pool get/put, list steps, every visible statement of rux, handler boundaries) up to a preemption bound iterated 0,1,2(,3) is executed on the real ServeHTTP under a controlled scheduler; each thread's observation must equal its solo observation, no panic/deadlock, cache invariants hold afterwards, the vector-clock monitor reports no race on the cache list, the pool, Router fields or package-level variables; " +
 		"plus the same bodies free-running under -race; non-trivial = an execution with at least one preemption; states = distinct (scenario, schedule) executions, transitions = scheduling decisions taken",
 	Assume: []string{
 		"the scheduler is sequentially consistent (no weak-memory effects)",
-		"memory the shims cannot see (slice backing arrays, Router fields) is covered for the race clause only by the free-running -race pass, a dynamic happens-before detector, not an enumeration",
+		"writes to Router fields and package-level variables (rux and its pkg/* packages) are declared to the vector-clock monitor by the instrumenter; other memory the shims cannot see (slice backing arrays, reads of such fields) is covered for the race clause only by the free-running -race pass, a dynamic happens-before detector, not an enumeration",
 	},
 	Bounds: func(tier string) map[string]any {
 		b := c03Bounds(tier)
@@ -140,12 +140,13 @@ var c03Spec = fw.Spec[c03Case]{
 		return nil
 	},
 	Gen: func(tier string, emit func(c03Case)) {
-		c03GenSched(tier, emit)
+		// the free-running pass first (it must never be the part a budget cuts off)
 		if tier == "quick" {
 			emit(c03Case{Kind: "race-pass", Iters: 150})
 		} else {
 			emit(c03Case{Kind: "race-pass", Iters: 1500, Thorough: true})
 		}
+		c03GenSched(tier, emit)
 	},
 	Run: func(c c03Case, st *fw.Stats) []fw.Viol {
 		if c.Kind == "race-pass" {
@@ -158,7 +159,7 @@ var c03Spec = fw.Spec[c03Case]{
 	ReplayAttempts: 4,
 	BudgetSec: func(tier string) int {
 		if tier == "thorough" {
-			return 3600
+			return 5400
 		}
 		return 150
 	},
